@@ -137,6 +137,10 @@ pub struct SrvIdCase {
     pub restarts: u8,
     pub batch_size: u8,
     pub reqs: Vec<StdReq>,
+    /// before the traffic that is examined, each responder meets a request whose reply cannot be sent (UDP source
+    /// port 0): certificates sent afterwards are as good as before
+    #[serde(default)]
+    pub unsendable_first: bool,
 }
 
 fn check_server_identity(ctx: &mut Ctx, c: &SrvIdCase) -> Res {
@@ -160,6 +164,17 @@ fn check_server_identity(ctx: &mut Ctx, c: &SrvIdCase) -> Res {
         }
         if lab.server.get_public_key() != hex(&pk) {
             return ctx.fail("announced-key-not-rfc8032", format!("seed {}: server announces {} but RFC 8032 gives {} (start {})", hex(&c.seed.0), lab.server.get_public_key(), hex(&pk), r));
+        }
+        if c.unsendable_first {
+            let mut pre = vec![];
+            for (j, ietf) in [false, true, false].iter().enumerate() {
+                let nonce = crate::refcrypto::sha512(&[&b"c10-unsendable"[..], &[j as u8][..]])[..if *ietf { 32 } else { 64 }].to_vec();
+                pre.push((PORT0, build_request(if *ietf { Proto::Ietf } else { Proto::Classic }, &nonce, 1024, &[VER_DRAFT13], None)));
+            }
+            if let Err(e) = lab.step(&pre, 0) {
+                return ctx.fail("process-events-panic", format!("{:?}", e));
+            }
+            ctx.class("c10:server:after-unsendable-replies");
         }
         let step: Vec<Send> = c.reqs.iter().enumerate().map(|(i, q)| Send { sock: (i % 16) as u8, d: Dgram::Std(q.clone()) }).collect();
         let sent = materialize(&lab, &step, 16);
@@ -214,8 +229,8 @@ pub fn run_c10(ctx: &mut Ctx) -> Vec<Violation> {
         ctx.sample("library", 2, c);
         check_identity(ctx, c)
     }));
-    let srv = (seed32(), 1u8..=3, prop::sample::select(vec![1u8, 2, 7, 64]), proptest::collection::vec(std_req(), 1..=12), prop_oneof![5 => Just((0u16, 0u16)), 1 => (20u16..=60, 70u16..=160)])
-        .prop_map(|(seed, restarts, batch_size, reqs, (interval_ms, pause_ms))| SrvIdCase { interval_ms, pause_ms, seed, restarts, batch_size, reqs });
+    let srv = (seed32(), 1u8..=3, prop::sample::select(vec![1u8, 2, 7, 64]), proptest::collection::vec(std_req(), 1..=12), prop_oneof![5 => Just((0u16, 0u16)), 1 => (20u16..=60, 70u16..=160)], prop::bool::weighted(0.3))
+        .prop_map(|(seed, restarts, batch_size, reqs, (interval_ms, pause_ms), unsendable_first)| SrvIdCase { interval_ms, pause_ms, seed, restarts, batch_size, reqs, unsendable_first });
     out.extend(run_prop(ctx, "server", t.pick(4_000, 40_000), 200, srv, |ctx, c| {
         ctx.sample("server", 1, &(c.seed.clone(), c.restarts, c.reqs.len()));
         check_server_identity(ctx, c)
